@@ -454,6 +454,18 @@ func TestC18(t *testing.T) {
 		return c18BytesCase{Src: nthString(c18ByteAlphabet, l, i-offsets[l])}
 	}, c18BytesCheck, true)
 
+	// token strings: the words and marks the parser reacts to, in every order and at the very end of the input
+	tokens := []string{"export", "export ", "export\t", "exports", "A", "B_1", "=", ":", ": ", " ", "\n", "\r\n", "'", "\"", "#", " #", "$A", "${A}", "${A:-d}", "${", "\\", "\\n", "\\$", "v", "é", "\t", "-", "."}
+	RunRapid(c, t, Sub[c18BytesCase]{Kind: "bytes-tokens", Quick: 200_000, Thorough: 2_000_000,
+		Gen: func(t *rapid.T) c18BytesCase {
+			n := rapid.IntRange(1, 7).Draw(t, "ntokens")
+			var b strings.Builder
+			for i := 0; i < n; i++ {
+				b.WriteString(tokens[rapid.IntRange(0, len(tokens)-1).Draw(t, "tok")])
+			}
+			return c18BytesCase{Src: b.String()}
+		}, Check: c18BytesCheck})
+
 	RunRapid(c, t, Sub[c18BytesCase]{Kind: "bytes-random", Quick: 300_000, Thorough: 3_000_000,
 		Gen: func(t *rapid.T) c18BytesCase {
 			n := rapid.IntRange(5, 24).Draw(t, "len")
